@@ -7,6 +7,10 @@ and reward bit for bit (`solo_replay`).
 """
 from __future__ import annotations
 
+import os
+import signal
+import threading
+
 import torch
 from tensordict import TensorDict
 
@@ -22,11 +26,33 @@ def _set_bs(env, bs):
         tables.set_bs(bs)
 
 
+class StepTimeout(RuntimeError):
+    """env.step did not return within the watchdog time (a loop inside the environment that never terminates)"""
+
+
+def _on_alarm(signum, frame):
+    raise StepTimeout("env.step did not return within the watchdog time")
+
+
+STEP_WATCHDOG_S = int(os.environ.get("VERIF_STEP_WATCHDOG", "180"))
+
+
 def step_batch(env, td, actions):
     td = td.clone()
     td.set("action", torch.as_tensor(actions, dtype=torch.long))
     _set_bs(env, td.batch_size[0])
-    td = env.step(td)["next"]
+    # watchdog: a single (batched) step normally takes milliseconds; time-advance loops inside scheduling
+    # environments can spin forever after a defect, which has to surface as a finding instead of a hung check
+    use_alarm = threading.current_thread() is threading.main_thread()
+    if use_alarm:
+        old = signal.signal(signal.SIGALRM, _on_alarm)
+        signal.alarm(STEP_WATCHDOG_S)
+    try:
+        td = env.step(td)["next"]
+    finally:
+        if use_alarm:
+            signal.alarm(0)
+            signal.signal(signal.SIGALRM, old)
     if hasattr(env, "_update_step_state") and bool(done_vec(td).all()):
         # FFSP skips its mask update when EVERY row of the batch is finished (the decoding loop stops there).
         # A finished row that still has an unfinished batch-mate gets its mask from _update_step_state; the
